@@ -34,7 +34,11 @@ m("c03_kilo_constant", "src/prefix.rs", "pub const KILO: i32 = 3;", "pub const K
 m("c03_gram_bias", U, "Unit::KiloGram => 3,", "Unit::KiloGram => 0,", "C19")
 # ---- C04
 m("c04_mul_n_ignored_for_rhs_bases", C, "                    e.insert(State {\n                        power: power * n,\n                        prefix: 0,\n                    });", "                    e.insert(State {\n                        power,\n                        prefix: 0,\n                    });", "C04 C13")
-m("c04_reconstruct_wrong_sign", C, "                    apply_conversion(-mod_power, out, conversion, true)?;", "                    apply_conversion(mod_power, out, conversion, true)?;", "C04 C13")
+m("c04_reconstruct_wrong_sign", C, "                    apply_interval_conversion(-mod_power, out, conversion);", "                    apply_interval_conversion(mod_power, out, conversion);", "C04 C13")
+# ---- offset scales in products (fixes fbd1cc5, a4bfbd5)
+m("c13_zero_point_added_in_products", C, "        Conversion::Offset(..) => return,", "        Conversion::Offset(fraction) => {\n            *ratio += Rational::new(fraction.numer, fraction.denom) * Rational::new(pow, 1);\n            return;\n        }", "C13 C09")
+m("c13_fahrenheit_degree_is_one_kelvin", C, "            one - zero\n", "            one\n", "C13 C09")
+m("c13_identical_units_walk_the_conversion", C, "        // The very same unit on both sides needs no conversion at all.\n        if self == other {\n            return Ok(true);\n        }\n\n", "", "C13")
 m("c04_bases_match_off_by_one", C, "                if p.signum() == s.signum() && p * p.signum() <= s * s.signum() {", "                if p.signum() == s.signum() && p * p.signum() < s * s.signum() {", "C04")
 m("c04_rhs_prefix_dropped", C, "            *rhs *= Rational::new(10u32, 1u32).pow(state.prefix * state.power);", "", "C04 C13")
 m("c04_unit_pow_ignores_n", C, "            let power = state.power.checked_mul(n)?;\n\n            if power != 0 {", "            let power = state.power.checked_mul(n.signum())?;\n\n            if power != 0 {", "C04")
